@@ -1,4 +1,11 @@
+import RactorModel.Extracted
 import RactorModel.Lemmas.TimersProps
+import RactorModel.Lemmas.TimersDrop
+import RactorModel.Lemmas.TimersDeliver
+import RactorModel.Lemmas.TimersStops
+import RactorModel.Lemmas.TimersBurst
+import RactorModel.Lemmas.TimersExact
+import RactorModel.Lemmas.TimersReasons
 
 /-!
 # C12 — timers fire once, never early, and die with their target
@@ -37,12 +44,179 @@ nothing in the future, one-shot timers act at most once and their handle tells w
 the target stopped accepting (the instant its message loop ended — also while `post_stop` is still
 running), a `send_after` handle is `Ok` only for a send made no later than that instant and `Err` only
 after it, exit reasons have a source, handled messages were sent. -/
-theorem ok_all (ops : List Op) : ok (steps init ops) = true :=
-  (Inv.init.steps ops).ok
+theorem ok_all (ops : List Op) : ok (steps init ops) = true := by
+  unfold ok
+  rw [ok2_of_inv (Inv.init.steps ops) (DInv.init.steps Inv.init ops),
+    sentBeforeClose_of (all3_steps Inv.init DInv.init EInv.init ops),
+    reasonSrcOk_of (RT.init.steps ops)]; rfl
 
 /-- At every quiescent point of a quiescent run both predicates hold. -/
-theorem ok_quiescent (ms : List MOp) : ok (mrun init ms) = true ∧ okPrompt (mrun init ms) = true :=
-  ⟨(BInv.init.mrun ms).inv.ok, (BInv.init.mrun ms).okPrompt⟩
+theorem ok_quiescent (ms : List MOp) : ok (mrun init ms) = true ∧ okPrompt (mrun init ms) = true := by
+  refine ⟨?_, ?_⟩
+  · obtain ⟨ops, e⟩ := mrun_eq_steps init ms
+    rw [e]; exact ok_all ops
+  · obtain ⟨ha, hs⟩ := settled_mrun ms AInv.init settled_init
+    obtain ⟨ops, e⟩ := mrun_eq_steps init ms
+    have he : EInv (mrun init ms) := e ▸ all3_steps Inv.init DInv.init EInv.init ops
+    have hq : QM (mrun init ms).target := qm_mrun ms Inv.init AInv.init (fun _ _ => rfl)
+    unfold okPrompt
+    rw [(BInv.init.mrun ms).okPrompt1, stopsOk_of (BInv.init.mrun ms).inv ha hs, allHandledOk_of he hq]; rfl
+
+/-- DELIVERY-level at-most-once, for every schedule: no message (timer id, k) is in the mailbox or in
+the handled log twice — a `send_after` message is handled at most once, the k-th interval message at
+most once —, every handled message was made by the k-th attempt of that (sending) timer and handled
+no earlier than that attempt, and an actor that is gone has an empty mailbox (what it had accepted
+and not handled is dropped, never handled later). -/
+theorem delivered_at_most_once (ops : List Op) :
+    let s := steps init ops
+    (s.target.mbox ++ s.target.handled.map (fun h => (h.1, h.2.1))).Nodup ∧
+    (∀ h ∈ s.target.handled, ∃ τ, s.timers[h.1]? = some τ ∧ τ.kind.sends = true ∧ 1 ≤ h.2.1 ∧
+        ∃ t, τ.sentAt[h.2.1 - 1]? = some t ∧ t ≤ h.2.2) ∧
+    (s.target.exit ≠ none → s.target.mbox = []) :=
+  delivered' (Inv.init.steps ops) (DInv.init.steps Inv.init ops)
+
+/-- `exit_after`, the fire step (the analogue of `sendAfter_fires`): in ANY reachable state, when the
+sleeping task is polled at or after its wheel deadline it acts exactly once, now, and what it does
+is `actor.stop(Some("Exit after {as_millis}ms"))` — a no-op on a target that is gone or already has
+a stop request (first request wins). -/
+theorem exitAfter_fires (ops : List Op) (i : Nat) (τ : Timer) (a : Nat)
+    (hi : (steps init ops).timers[i]? = some τ) (hk : τ.kind = .exitAfter) (hp : τ.res = .pending)
+    (ha : τ.armed = some a) (hd : wheelDeadline a τ.period ≤ (steps init ops).now) :
+    let s := steps init ops
+    (step s (.fire i)).timers[i]? = some ((τ.attempt s.now).finish .ok s.now) ∧ τ.sentAt = [] ∧
+      (step s (.fire i)).target = s.target.stop (.exitAfter (asMillis τ.period)) :=
+  exitAfter_fires' (Inv.init.steps ops) i τ a hi hk hp ha hd
+
+/-- `send_interval`, the fire step (schedule-independent: ANY reachable state, the poll may come
+arbitrarily late): a poll of the interval task that is past its first tick (a) before the next tick
+is due changes nothing; (b) with a tick due and a send that fails (target not accepting, or wrong
+message type) makes exactly one attempt, now, and ends the task, leaving the target alone; (c) against
+an accepting target completes ALL `n` elapsed ticks in this one poll — `n` attempts stamped `now`,
+messages `(i, len+1) … (i, len+n)` appended to the mailbox in order, the task still pending — where
+`n` is exactly the number of elapsed ticks: the `(len+n)`-th wheel deadline has passed (or `n = 0`),
+the `(len+n+1)`-th has not. Deadlines are `wheelDeadline armed (k·period)`: computed from the
+instant of the first poll, not from the previous tick — no drift for ANY schedule of polls. -/
+theorem interval_fires (ops : List Op) (i : Nat) (τ : Timer) (a : Nat)
+    (hi : (steps init ops).timers[i]? = some τ) (hk : τ.kind = .interval) (hp : τ.res = .pending)
+    (ha : τ.armed = some a) (hpr : τ.primed = true) :
+    let s := steps init ops
+    ∃ τ', (step s (.fire i)).timers[i]? = some τ' ∧
+    (s.now < wheelDeadline a ((τ.sentAt.length + 1) * τ.period) →
+      τ' = τ ∧ (step s (.fire i)).target = s.target) ∧
+    (wheelDeadline a ((τ.sentAt.length + 1) * τ.period) ≤ s.now → τ.canSend s.target = false →
+      τ' = (τ.attempt s.now).finish .ok s.now ∧ (step s (.fire i)).target = s.target) ∧
+    (τ.canSend s.target = true →
+      ∃ n, τ'.sentAt = τ.sentAt ++ List.replicate n s.now ∧ τ'.res = .pending ∧
+        (step s (.fire i)).target.mbox =
+          s.target.mbox ++ (List.range n).map (fun j => (i, τ.sentAt.length + 1 + j)) ∧
+        s.now < wheelDeadline a ((τ.sentAt.length + n + 1) * τ.period) ∧
+        (n = 0 ∨ wheelDeadline a ((τ.sentAt.length + n) * τ.period) ≤ s.now)) :=
+  interval_fires' (Inv.init.steps ops) i τ a hi hk hp ha hpr
+
+/-- `kill_after`, the fire step: `actor.kill()`. -/
+theorem killAfter_fires (ops : List Op) (i : Nat) (τ : Timer) (a : Nat)
+    (hi : (steps init ops).timers[i]? = some τ) (hk : τ.kind = .killAfter) (hp : τ.res = .pending)
+    (ha : τ.armed = some a) (hd : wheelDeadline a τ.period ≤ (steps init ops).now) :
+    let s := steps init ops
+    (step s (.fire i)).timers[i]? = some ((τ.attempt s.now).finish .ok s.now) ∧ τ.sentAt = [] ∧
+      (step s (.fire i)).target = s.target.kill :=
+  killAfter_fires' (Inv.init.steps ops) i τ a hi hk hp ha hd
+
+/-- The POSITIVE half, "the actor actually exits". For every schedule: (1) a live idle target (no
+request pending, its message loop running — not still `Starting` —, not in `post_stop`, gate open) whose
+`exit_after` just acted exits with exactly that
+reason, at that instant, the next time its task runs; after a `kill_after` acted, a target that is
+not gone exits `"killed"` the next time its task runs — whatever else is pending (a kill overrides
+a stop request and cancels `post_stop`). (2) In any reachable state: once an `exit_after` has acted
+the stop request is on record or the actor is gone, once a `kill_after` has acted the kill request
+is on record or the actor is gone (requests are never taken back), and after the target's task has
+run a recorded kill has been obeyed (also by a target that is still `Starting`) and a recorded stop
+has at least ended the message loop — unless the target is still `Starting`: there the request waits. -/
+theorem exit_after_stops (T : Target) (p now : Nat) (he : T.exit = none) :
+    (T.killReq = false → T.stopReq = none → T.stopping = none → T.psGate = false → T.starting = false →
+      ((T.stop (.exitAfter (asMillis p))).run now).exit = some (.exitAfter (asMillis p), now)) ∧
+    (T.kill.run now).exit = some (.killed, now) :=
+  ⟨fun hk hs hst hg h0 => stop_then_run T _ now he hk hs hst hg h0, kill_then_run T now he⟩
+
+theorem acted_then_requested (ops : List Op) :
+    let s := steps init ops
+    (∀ τ ∈ s.timers, τ.kind = .exitAfter → τ.sentAt ≠ [] → s.target.stopReq ≠ none ∨ s.target.exit ≠ none) ∧
+    (∀ τ ∈ s.timers, τ.kind = .killAfter → τ.sentAt ≠ [] → s.target.killReq = true ∨ s.target.exit ≠ none) ∧
+    (((step s .target).target.killReq = true → (step s .target).target.exit ≠ none) ∧
+     ((step s .target).target.stopReq ≠ none →
+        (step s .target).target.closedAt ≠ none ∨ (step s .target).target.exit ≠ none ∨
+          (step s .target).target.starting = true)) :=
+  ⟨(AInv.init.steps ops).exitA, (AInv.init.steps ops).killA,
+   run_settled _ _ (AInv.init.steps ops).sc⟩
+
+/-- ... and at every quiescent point of a quiescent run (this is the clause `stopsOk` of
+`Timers.okPrompt`, evaluated on the exit the real supervisor observed): a `kill_after` that has acted
+⇒ the actor is gone; an `exit_after` that has acted ⇒ the actor has stopped accepting (gone, or in
+`post_stop`) — or it is still `Starting` (gated `post_start`) and the request waits for its message loop. -/
+theorem acted_then_gone (ms : List MOp) (τ : Timer) (hτ : τ ∈ (mrun init ms).timers) (hne : τ.sentAt ≠ []) :
+    (τ.kind = .killAfter → (mrun init ms).target.exit ≠ none) ∧
+    (τ.kind = .exitAfter → (mrun init ms).target.closedAt ≠ none ∨ (mrun init ms).target.starting = true) := by
+  obtain ⟨ha, hs⟩ := settled_mrun ms AInv.init settled_init
+  have := stopsOk_of (BInv.init.mrun ms).inv ha hs
+  rw [List.all_eq_true] at this
+  have := this τ hτ
+  unfold stopsOk at this
+  have hne' : τ.sentAt.isEmpty = false := by
+    cases h : τ.sentAt with
+    | nil => exact absurd h hne
+    | cons => rfl
+  constructor
+  · intro hk
+    simp only [hk, hne', beq_self_eq_true, Bool.not_false, Bool.and_self, Bool.not_true, Bool.false_or,
+      Bool.and_eq_true] at this
+    intro h; rw [h] at this; simp at this
+  · intro hk
+    simp only [hk, hne', beq_self_eq_true, Bool.not_false, Bool.and_self, Bool.not_true, Bool.false_or,
+      Bool.and_eq_true, Bool.or_eq_true] at this
+    rcases this.2 with h | h
+    · left; intro h'; rw [h'] at h; simp at h
+    · exact .inr h
+
+/-- "A timer whose target is no longer running delivers nothing", at DELIVERY level, for every
+schedule: every handled message was sent (its attempt was made) no later than the instant the target
+stopped accepting; and as long as the target has never stopped accepting, every attempt of every
+well-typed sending timer is in the mailbox or handled — nothing is lost, nothing is refused. -/
+theorem delivers_nothing_after_close (ops : List Op) :
+    let s := steps init ops
+    (∀ tc, s.target.closedAt = some tc → ∀ h ∈ s.target.handled, ∀ τ, s.timers[h.1]? = some τ →
+      ∀ t, τ.sentAt[h.2.1 - 1]? = some t → t ≤ tc) ∧
+    (s.target.closedAt = none → ∀ i τ, s.timers[i]? = some τ → τ.kind.sends = true → τ.typed = true →
+      ∀ k, 1 ≤ k → k ≤ τ.sentAt.length →
+        (i, k) ∈ s.target.mbox ++ s.target.handled.map (fun h => (h.1, h.2.1))) := by
+  intro s
+  have he : EInv s := all3_steps Inv.init DInv.init EInv.init ops
+  refine ⟨fun tc htc h hh τ hτ t ht => ?_, he.acc⟩
+  exact he.before tc htc (h.1, h.2.1)
+    (List.mem_append_right _ (List.mem_map.mpr ⟨h, hh, rfl⟩)) τ hτ t ht
+
+/-- EXACTLY once (quiescent runs): while the target has never stopped accepting and its message loop
+runs (it is not still `Starting`, where accepted messages queue up), at every quiescent
+point every attempt `k` of every well-typed sending timer `i` — the one message of a `send_after`, the
+k-th message of a `send_interval` — has been handled exactly once. -/
+theorem delivered_exactly_once (ms : List MOp) (hcl : (mrun init ms).target.closedAt = none)
+    (hst : (mrun init ms).target.starting = false) (i : Nat) (τ : Timer) (hi : (mrun init ms).timers[i]? = some τ) (hs : τ.kind.sends = true)
+    (hty : τ.typed = true) (k : Nat) (h1 : 1 ≤ k) (h2 : k ≤ τ.sentAt.length) :
+    ((mrun init ms).target.handled.map (fun h => (h.1, h.2.1))).count (i, k) = 1 := by
+  obtain ⟨ops, e⟩ := mrun_eq_steps init ms
+  have he : EInv (mrun init ms) := e ▸ all3_steps Inv.init DInv.init EInv.init ops
+  have hd : DInv (mrun init ms) := e ▸ DInv.init.steps Inv.init ops
+  have hq : QM (mrun init ms).target := qm_mrun ms Inv.init AInv.init (fun _ _ => rfl)
+  have hm := he.acc hcl i τ hi hs hty k h1 h2
+  unfold Target.ids at hm
+  rw [hq hcl hst, List.nil_append] at hm
+  rw [List.Nodup.count ((hmap_sub _).nodup hd.nodup)]
+  simp [hm]
+
+/-- a one-shot's message is handled at most once -/
+theorem oneShot_handled_once (ops : List Op) (i : Nat) (τ : Timer) (hi : (steps init ops).timers[i]? = some τ)
+    (hk : τ.kind.oneShot = true) :
+    ((steps init ops).target.handled.filter (fun h => h.1 == i)).length ≤ 1 :=
+  oneShot_handled_once' (Inv.init.steps ops) (DInv.init.steps Inv.init ops) i τ hi hk
 
 /-- `send_after` (also `exit_after`, `kill_after`): at most one action, and not before the period
 has elapsed since the API call — for every schedule. -/
@@ -61,13 +235,13 @@ sends exactly one message if the target still accepts (handle: `Ok`), and otherw
 and reports the error through its handle. -/
 theorem sendAfter_fires (ops : List Op) (i : Nat) (τ : Timer) (a : Nat)
     (hi : (steps init ops).timers[i]? = some τ) (hk : τ.kind = .sendAfter) (hp : τ.res = .pending)
-    (ha : τ.armed = some a) (hd : wheelDeadline a τ.period ≤ (steps init ops).now) :
+    (ha : τ.armed = some a) (hd : wheelDeadline a τ.period ≤ (steps init ops).now) (hty : τ.typed = true) :
     let s := steps init ops
     let s' := step s (.fire i)
     ∃ τ', s'.timers[i]? = some τ' ∧ τ'.sentAt = [s.now] ∧
       (s.target.accepts = true → τ'.res = .ok ∧ s'.target.mbox = s.target.mbox ++ [(i, 1)]) ∧
       (s.target.accepts = false → τ'.res = .err ∧ s'.target.mbox = s.target.mbox) :=
-  sendAfter_fires' (Inv.init.steps ops) i τ a hi hk hp ha hd
+  sendAfter_fires' (Inv.init.steps ops) i τ a hi hk hp ha hd hty
 
 /-- A finished (returned or aborted) timer task never does anything again. -/
 theorem finished_frozen (s : State) (i : Nat) (τ : Timer) (hi : s.timers[i]? = some τ)
@@ -100,10 +274,10 @@ reached when `drain` is called or the message loop ends, NOT only when the actor
 `post_stop` runs nothing is accepted any more), and a handle that says `Err` belongs to a send made
 after that instant. -/
 theorem handle_reports_send (ops : List Op) (τ : Timer) (hτ : τ ∈ (steps init ops).timers)
-    (hk : τ.kind = .sendAfter) :
+    (hk : τ.kind = .sendAfter) (hty : τ.typed = true) :
     (τ.res = .ok → ∀ tc, (steps init ops).target.closedAt = some tc → ∀ t ∈ τ.sentAt, t ≤ tc) ∧
     (τ.res = .err → ∃ tc, (steps init ops).target.closedAt = some tc ∧ ∀ t ∈ τ.sentAt, tc ≤ t) :=
-  handle_reports_send' (Inv.init.steps ops) τ hτ hk
+  handle_reports_send' (Inv.init.steps ops) τ hτ hk hty
 
 /-- An interval task whose target left the active states — `closedAt`: the instant the message loop
 ended or `drain` was called; the target may still sit in `post_stop` for as long as it likes — ends
@@ -133,10 +307,146 @@ theorem exit_reason (ops : List Op) (r : Reason) (te : Nat)
     (r = .manual → (steps init ops).target.manualStop = true) :=
   exit_reason' (Inv.init.steps ops) r te he
 
+/-- The other two exit reasons have a source as well, for every schedule: `"Drained"` only after `drain()`
+was called on the target, `<failed>` only after a message on which the handler fails was accepted;
+a stop request never carries either reason, and a target in `post_stop` is never there for a failure
+(a failing handler skips `post_stop`). -/
+theorem exit_reason_sources (ops : List Op) :
+    let T := (steps init ops).target
+    (∀ te, T.exit = some (.drained, te) → T.draining = true) ∧
+    (∀ te, T.exit = some (.failed, te) → T.manualFail = true) ∧
+    (∀ ts, T.stopping ≠ some (.failed, ts)) ∧
+    (∀ r, T.stopReq = some r → r = .manual ∨ ∃ ms, r = .exitAfter ms) :=
+  let h := RT.init.steps (s := init) ops
+  ⟨h.drained_src, h.failed_src, h.ps_nofail, h.req⟩
+
 /-- The documented reason string (compared verbatim with what the real supervisor receives). -/
 theorem reason_string (p : Nat) : (Reason.exitAfter p).render = "Exit after " ++ toString p ++ "ms" := rfl
 
+/-! ### Round 4: boundary periods, dropped handles -/
+
+/-- A timer whose period reaches beyond the present never acted (corollary of `never_early`; it is
+what makes huge periods — `Duration::MAX`, `u64::MAX` µs — harmless: within any horizon the clock
+reaches, such a timer does nothing). With period 0 the hypothesis is unsatisfiable, as it must be. -/
+theorem beyond_horizon (ops : List Op) (τ : Timer) (hτ : τ ∈ (steps init ops).timers)
+    (hlt : (steps init ops).now < τ.created + τ.period) : τ.sentAt = [] :=
+  beyond_horizon' (Inv.init.steps ops) τ hτ hlt
+
+/-- Period 0, one-shot timers (`send_after(0)`, `exit_after(0)`, `kill_after(0)`): for every schedule at
+most one action, not before the API call (`never_early` at period 0 is `created ≤ t`, not vacuous:
+the clock may have moved before the first poll); in a quiescent run a timer created on the
+millisecond grid has acted — or was aborted — by the end of the macro op that created it. -/
+theorem zero_period_oneshot (ms : List MOp) (τ : Timer) (hτ : τ ∈ (mrun init ms).timers)
+    (hk : τ.kind.oneShot = true) (hz : τ.period = 0) :
+    τ.sentAt.length ≤ 1 ∧ (∀ t ∈ τ.sentAt, τ.created ≤ t) ∧ (τ.created % 1000 = 0 → τ.res ≠ .pending) := by
+  obtain ⟨ops, e⟩ := mrun_eq_steps init ms
+  have h := oneShot_once_never_early' (e ▸ Inv.init.steps ops) τ hτ hk
+  refine ⟨h.1, fun t ht => ?_, zero_oneshot_gone (BInv.init.mrun ms) τ hτ hk hz⟩
+  have := h.2 t ht
+  omega
+
+/-- `send_interval(Duration::ZERO)`: `tokio::time::interval` panics inside the spawned task. For
+every schedule such a timer never gets armed and never sends; only such a timer panics; the poll of
+a pending one ends it with `panicked` and leaves the target alone; and at every quiescent point it
+is gone (panicked, or aborted before its first poll). -/
+theorem zero_interval_panics (ops : List Op) :
+    (∀ τ ∈ (steps init ops).timers, τ.kind = .interval → τ.period = 0 → τ.sentAt = [] ∧ τ.armed = none) ∧
+    (∀ τ ∈ (steps init ops).timers, τ.res = .panicked → τ.kind = .interval ∧ τ.period = 0) ∧
+    (∀ i τ, (steps init ops).timers[i]? = some τ → τ.kind = .interval → τ.period = 0 → τ.res = .pending →
+      (step (steps init ops) (.fire i)).timers[i]? = some (τ.finish .panicked (steps init ops).now) ∧
+      (step (steps init ops) (.fire i)).target = (steps init ops).target) :=
+  ⟨fun τ hτ => zero_interval' (Inv.init.steps ops) τ hτ,
+   fun τ hτ => ((Inv.init.steps ops).tinv τ hτ).panic,
+   fun i τ hi => zero_interval_fire _ i τ hi⟩
+
+theorem zero_interval_gone_when_quiescent (ms : List MOp) (τ : Timer) (hτ : τ ∈ (mrun init ms).timers)
+    (hk : τ.kind = .interval) (hz : τ.period = 0) : τ.res ≠ .pending :=
+  zero_interval_gone (BInv.init.mrun ms) τ hτ hk hz
+
+/-- Dropping `JoinHandle`s changes nothing anybody but the handle's owner can see: for every
+schedule, the run with the drops and the run with the drops erased agree on the clock, the
+target (mailbox, handled messages, exit, reason), every timer's whole history and result, and the
+quiescent points — they differ only in the ghost set `dropped`. (The task is detached, not cancelled.) -/
+theorem drop_handle_frame (ops : List Op) :
+    (steps init ops).seen = steps init (ops.filter (fun o => !o.isDrop)) :=
+  steps_seen ops init
+
+/-- The same for the macro ops the harness executes: erase `dropHandle`, turn `advDrop d i` into
+`adv d` — clock, target and timers are the same (only a quiescent point fewer is recorded). -/
+theorem drop_handle_frame_macro (ms : List MOp) :
+    (mrun init ms).now = (mrun init (undrop ms)).now ∧ (mrun init ms).target = (mrun init (undrop ms)).target ∧
+      (mrun init ms).timers = (mrun init (undrop ms)).timers :=
+  mrun_undrop ms ⟨rfl, rfl, rfl⟩
+
+/-- The free functions called with an `ActorCell` and a message type that is not the target's
+(`createX`): for every schedule the timer makes at most one attempt (the message builder runs once,
+`send_message` answers `InvalidActorType`), a pending one has made none — so the interval's loop
+was left through the `break` after its first tick —, and such a `send_after` never answers `Ok`.
+(All other theorems — never early, at most once, abort, frames — hold for these timers as for any other.) -/
+theorem mistyped_fails_once (ops : List Op) (τ : Timer) (hτ : τ ∈ (steps init ops).timers)
+    (hty : τ.typed = false) (hs : τ.kind.sends = true) :
+    (τ.res = .pending → τ.sentAt = []) ∧ τ.sentAt.length ≤ 1 ∧ (τ.kind = .sendAfter → τ.res ≠ .ok) :=
+  mistyped' (Inv.init.steps ops) τ hτ hty hs
+
 /-! ### Non-vacuity -/
+
+/-- a mistyped interval ticks once, fails, leaves its loop (`ok`), nothing reaches the target, which
+lives on; the mistyped send_after reports the error although the target is running -/
+example : let s := mrun init [.createX .interval 3000, .createX .sendAfter 2000, .create .interval 3000, .adv 3000, .adv 3000]
+    s.timers.map (fun τ => (τ.res, τ.sentAt)) = [(.ok, [3000]), (.err, [3000]), (.pending, [3000, 6000])] ∧
+      s.target.handled = [(2, 1, 3000), (2, 2, 6000)] ∧ s.target.closedAt = none := by decide
+
+/-- a LATE poll (small steps, not a quiescent run): the interval armed at 0 is not polled until 10.5 ms —
+ticks 3, 6, 9 ms all complete in that one poll, the 4th (12 ms) is not due -/
+example : let s := steps init [.create .interval 3000, .fire 0, .tick 10500, .fire 0]
+    s.timers.map (fun τ => (τ.res, τ.sentAt)) = [(.pending, [10500, 10500, 10500])] ∧
+      s.target.mbox = [(0, 1), (0, 2), (0, 3)] := by decide
+
+/-- the target FAILS (its handler returns Err on a poison message) at 1 ms: no `post_stop` although the gate
+is armed, the supervisor is told at once; the interval makes one failing attempt at its next tick and
+ends, the `send_after` reports the error, a later `kill_after` finds nobody -/
+example : let s := mrun init [.hold, .create .interval 3000, .create .sendAfter 2000, .create .killAfter 5000,
+      .advFail 1000, .adv 2000, .adv 2000]
+    s.target.exit = some (.failed, 1000) ∧ s.target.closedAt = some 1000 ∧ s.target.stopping = none ∧
+      s.timers.map (fun τ => (τ.res, τ.sentAt)) = [(.ok, [3000]), (.err, [3000]), (.ok, [5000])] ∧
+      s.target.handled = [] := by decide
+/-- the poison cast right after moving the clock is handled before the time driver runs: the actor fails, the
+exit_after then finds nobody -/
+example : (mrun init [.create .exitAfter 1000, .advFail 1000]).target.exit = some (.failed, 1000) := by decide
+example : (Reason.failed).render = "<failed> poison" := rfl
+
+/-- a target still `Starting` (gated `post_start`): the messages of an interval and of a `send_after` are
+accepted and queue up, an `exit_after` that fires only leaves its request; when the message loop
+begins (10 ms) the stop request wins: nothing is handled, the actor exits with the timer's reason -/
+example : let s := mrun init [.startHold, .create .interval 3000, .create .sendAfter 2000, .create .exitAfter 4000,
+      .adv 3000, .adv 3000]
+    s.target.mbox = [(0, 1), (1, 1), (0, 2)] ∧ s.target.handled = [] ∧ s.target.exit = none ∧
+      s.timers.map (fun τ => (τ.res, τ.sentAt)) = [(.pending, [3000, 6000]), (.ok, [3000]), (.ok, [6000])] := by decide
+example : let s := mrun init [.startHold, .create .interval 3000, .create .exitAfter 4000, .adv 3000, .adv 3000,
+      .adv 4000, .started]
+    s.target.exit = some (.exitAfter 4, 10000) ∧ s.target.handled = [] := by decide
+/-- ... without a stop request the backlog is handled when the loop begins; a kill ends a Starting target at once -/
+example : (mrun init [.startHold, .create .sendAfter 2000, .adv 3000, .adv 4000, .started]).target.handled
+    = [(0, 1, 7000)] := by decide
+example : (mrun init [.startHold, .create .killAfter 2000, .adv 2000]).target.exit = some (.killed, 2000) := by decide
+
+/-- send_interval(0): panicked at the first poll, nothing sent, the target untouched; a later abort changes nothing -/
+example : let s := mrun init [.create .interval 0, .adv 5000, .abort 0]
+    s.timers.map (fun τ => (τ.res, τ.sentAt, τ.finAt)) = [(.panicked, [], some 0)] ∧ s.target.exit = none := by decide
+/-- one-shots of period 0 act in the op that creates them; off the grid at the next boundary -/
+example : let s := mrun init [.create .sendAfter 0, .create .exitAfter 0]
+    s.timers.map (fun τ => (τ.res, τ.sentAt)) = [(.ok, [0]), (.ok, [0])] ∧ s.target.exit = some (.exitAfter 0, 0) := by decide
+example : let s := mrun init [.adv 1500, .create .killAfter 0]
+    s.timers.map (·.res) = [.pending] ∧ s.target.exit = none := by decide
+/-- a period beyond the horizon: Duration::MAX in µs, an hour later nothing has happened -/
+example : let s := mrun init [.create .sendAfter 18446744073709551615999999, .create .interval 18446744073709551615, .adv 3600000000]
+    s.timers.map (fun τ => (τ.res, τ.sentAt)) = [(.pending, []), (.pending, [])] := by decide
+/-- drop vs abort at the deadline (clock moved, task not yet polled): the dropped one fires, the aborted one does not -/
+example : let s := mrun init [.create .sendAfter 5000, .create .sendAfter 5000, .advDrop 5000 0, .abort 1]
+    s.timers.map (fun τ => (τ.res, τ.sentAt)) = [(.ok, [5000]), (.ok, [5000])] ∧ s.dropped = [0] := by decide
+example : let s := mrun init [.create .sendAfter 5000, .create .sendAfter 5000, .dropHandle 0, .advAbort 5000 1]
+    s.timers.map (fun τ => (τ.res, τ.sentAt)) = [(.ok, [5000]), (.cancelled, [])] ∧ s.target.handled = [(0, 1, 5000)] := by decide
+example : undrop [.create .sendAfter 5000, .dropHandle 0, .advDrop 5000 0] = [.create .sendAfter 5000, .adv 5000] := rfl
 
 /-- an interval of 3 ms over quiescent points 0,3,6,8,9,19 ms: messages at 3, 6, 9, then a burst of three at 19 -/
 example : ((mrun init [.create .interval 3000, .adv 3000, .adv 3000, .adv 2000, .adv 1000, .adv 10000]).timers.map (·.sentAt))
@@ -196,6 +506,21 @@ example : (mrun init [.hold, .adv 1000, .kill]).target.exit = some (.killed, 100
 /-- exit_after with the documented reason -/
 example : (mrun init [.create .exitAfter 7000, .adv 7000]).target.exit = some (.exitAfter 7, 7000) := by decide
 
+/-! ### E-SRC, async-std backend (round 4)
+
+The model's clock axioms are written after tokio (`sleep`, `interval` with the Burst behaviour). With
+`--features async-std` ractor's `sleep` / `interval` are the ones of `async_std_primitives.rs`; these obligations
+pin the source shape the free-running oracle run `as-free` relies on: `sleep(d)` forwards `d` unchanged to
+`async_std::task::sleep`; `interval(d)` ticks first at once (`next_tick = now`), a tick reads the clock, sleeps the
+remaining time only if the tick lies in the future and then moves the schedule by exactly `d`
+(`next_tick += dur`: fixed rate, the k-th tick at `start + k·d`, late ticks are caught up in a burst). -/
+theorem src_async_std_sleep : Extracted.asyncStdSleepBody = "async_std::task::sleep(dur).await;" := by decide
+theorem src_async_std_interval :
+    Extracted.asyncStdIntervalInit = "dur,next_tick:Instant::now(),"
+    ∧ Extracted.asyncStdIntervalTickSteps =
+        ["letnow=Instant::now()", "ifself.next_tick>now", "sleep(self.next_tick-now).await", "self.next_tick+=self.dur"]
+    ∧ Extracted.asyncStdIntervalTickStatements = 4 := by decide
+
 end C12
 
 #print axioms C12.wheel_rounds_up
@@ -211,3 +536,23 @@ end C12
 #print axioms C12.handle_reports_send
 #print axioms C12.exit_reason
 #print axioms C12.reason_string
+#print axioms C12.exit_reason_sources
+#print axioms C12.beyond_horizon
+#print axioms C12.zero_period_oneshot
+#print axioms C12.zero_interval_panics
+#print axioms C12.zero_interval_gone_when_quiescent
+#print axioms C12.drop_handle_frame
+#print axioms C12.drop_handle_frame_macro
+#print axioms C12.mistyped_fails_once
+#print axioms C12.delivered_at_most_once
+#print axioms C12.oneShot_handled_once
+#print axioms C12.delivers_nothing_after_close
+#print axioms C12.delivered_exactly_once
+#print axioms C12.interval_fires
+#print axioms C12.exitAfter_fires
+#print axioms C12.killAfter_fires
+#print axioms C12.exit_after_stops
+#print axioms C12.acted_then_requested
+#print axioms C12.acted_then_gone
+#print axioms C12.src_async_std_sleep
+#print axioms C12.src_async_std_interval
